@@ -172,13 +172,33 @@ theorem compileAdvanced_plays (fuel : Nat) (L : Limits) (sample : WfId → Seg) 
     · have := s2 t ht
       omega
 
-/-- Single sequencing mode (no length check on the one table is made by the code; segments are checked). -/
-theorem compileSingle_plays (sample : WfId → Seg) (rep : Nat) (es : List Entry) (C : Compiled)
-    (h : compileSingle sample rep es = .ok C) :
+/-- Single sequencing mode (with the repair PF-C16a: the one table is at most `max_seq_len` long; no lower
+bound is enforced by `TaborProgram` — the driver pads with idle entries when arming). -/
+theorem compileSingle_plays (L : Limits) (sample : WfId → Seg) (rep : Nat) (es : List Entry) (C : Compiled)
+    (h : compileSingle L sample rep es = .ok C) :
     playAdv C.segs C.seqTabs C.adv = some ((repeatL rep (playEntries es)).map (fun w => rawOf (sample w))) ∧
+    (∀ tab ∈ C.seqTabs, tab.length ≤ L.max) ∧
     (∀ raw ∈ C.segs, ∃ n, raw.length = 2 * n ∧ 192 ≤ n ∧ n % 16 = 0) := by
-  obtain ⟨f1, _, f3⟩ := finish_plays sample (parseSingle rep es) C _ h (parseSingle_play rep es)
-  exact ⟨f1, f3⟩
+  simp only [compileSingle, setupSingle] at h
+  split at h
+  · cases h
+  · rename_i T hT
+    split at hT
+    · cases hT
+    · rename_i hlen
+      cases hT
+      obtain ⟨f1, f2, f3⟩ := finish_plays sample (parseSingle rep es) C _ h (parseSingle_play rep es)
+      refine ⟨f1, ?_, f3⟩
+      intro tab htab
+      have hmem : tab.length ∈ C.seqTabs.map List.length := List.mem_map.mpr ⟨tab, htab, rfl⟩
+      rw [f2] at hmem
+      simp only [parseSingle, List.map_cons, List.map_nil, List.mem_singleton, parseEntries_length] at hmem
+      omega
+
+/-- a single-mode table longer than the device bound is rejected (repaired behaviour, PF-C16a) -/
+theorem setupSingle_rejects (L : Limits) (rep : Nat) (es : List Entry) (h : L.max < es.length) :
+    setupSingle L rep es = .error .tooLong := by
+  simp [setupSingle, h]
 
 /-! ### the hypotheses are satisfiable (non-vacuity) -/
 
